@@ -86,6 +86,53 @@ struct C09Stats {
     reads: AtomicU64,
 }
 
+/// (9) the message is already waiting when the search starts: the search thread parks before its
+/// first node, the stop (or isready + stop, or ponderhit + stop) is delivered, then it goes on.
+/// Whatever looks at the channel first — the poll of the main search or any other place — finds it.
+fn c09_message_at_start(rep: &Reporter, stats: &C09Stats, pos_line: &str, root: &Pos, depth: usize) {
+    let pos_line = pos_line.to_string();
+    let legal: Vec<String> = root.legal().iter().map(|m| m.uci()).collect();
+    let all_legal = legal.join(" ");
+    let (_, fresh1) = dry_run(&pos_line, "go depth 1");
+        let forms9 = [format!("go depth {}", depth), "go infinite".to_string(), "go ponder infinite".to_string(), "go movetime 100000".to_string(), "go depth 9 searchmoves ".to_string() + &all_legal];
+        let pre: [Vec<GateAction>; 3] = [vec![GateAction::Stop], vec![GateAction::IsReady, GateAction::Stop], vec![GateAction::PonderHit, GateAction::Stop]];
+        let jobs9: Vec<(usize, usize)> = (0..forms9.len()).flat_map(|f| (0..pre.len()).map(move |a| (f, a))).collect();
+        par_map_fine(&jobs9, |&(fi, ai)| {
+            stats.runs.fetch_add(1, Ordering::Relaxed);
+            let case = |extra: Value| json!({"kind": "interrupt_at_start", "position": pos_line, "depth": depth, "go": forms9[fi], "actions_index": ai, "detail": extra});
+            let mut s = Session::new(false);
+            s.line(&pos_line);
+            let acts = pre[ai].clone();
+            let out = run_go(&mut s, &forms9[fi], Plan { poll: None, clock: Clock::Rate { ns_per_node: 0, jumps: vec![] }, gates: vec![START_GATE] }, &move |kk| if kk == START_GATE { acts.clone() } else { vec![] });
+            if out.problem.is_some() || out.n_best != 1 {
+                rep.report("interrupted_search_gives_no_single_answer:message_waiting_at_start".to_string(), case(json!({"problem": out.problem, "bestmoves": out.n_best})));
+                s.quit();
+                return;
+            }
+            match &out.best {
+                Some(b) if legal.contains(b) => {}
+                other => rep.report("interrupted_search_plays_illegal_or_null_move:message_waiting_at_start".to_string(), case(json!({"bestmove": other}))),
+            }
+            if let (Some(b), Some(a)) = (&out.obs.before_fen, &out.obs.after_fen) {
+                if a != b {
+                    rep.report("position_altered_by_interrupted_search:message_waiting_at_start".to_string(), case(json!({"before": b, "after": a})));
+                }
+            }
+            let again = run_go(&mut s, "go depth 1", Plan::virtual_rate(0), &none);
+            s.quit();
+            match &again.best {
+                Some(b) if legal.contains(b) => {}
+                other => {
+                    rep.report("go_after_interruption_plays_illegal_or_null_move:message_waiting_at_start".to_string(), case(json!({"bestmove": other})));
+                    return;
+                }
+            }
+            if again.score != fresh1.score {
+                rep.report("go_after_interruption_scores_differently_from_fresh_engine:message_waiting_at_start".to_string(), case(json!({"score": format!("{:?}", again.score), "fresh": format!("{:?}", fresh1.score)})));
+            }
+        });
+}
+
 fn c09_scenario(rep: &Reporter, sc: &Scenario, tier: Tier, stats: &C09Stats, sample: &std::sync::Mutex<Vec<Value>>) {
     let pos_line = position_line(&sc.pos, &sc.moves);
     let mut root = sc.pos.clone();
@@ -373,6 +420,8 @@ fn c09_scenario(rep: &Reporter, sc: &Scenario, tier: Tier, stats: &C09Stats, sam
             }
         }
     }
+    // (9) the message is already waiting when the search starts
+    c09_message_at_start(rep, stats, &pos_line, &root, sc.depth);
     // (6) earlier in the session, commands that belong to the idle state (position, go) arrived WHILE a
     // search was running. What the engine does with them then is its own business; but afterwards
     // the position given while idle is the position, however many searches follow.
@@ -513,6 +562,14 @@ pub fn run_c09(tier: Tier) -> i32 {
     for sc in &scs {
         c09_scenario(&rep, sc, tier, &stats, &sample);
     }
+    // (9) again on capture-rich roots (where the first nodes of a search are already deep in captures)
+    let tactical = ["r3k2r/p1ppqpb1/bn2pnp1/3PN3/1p2P3/2N2Q1p/PPPBBPPP/R3K2R w KQkq - 0 1", "r3k2r/p1ppqpb1/bn2pnp1/3PN3/1p2P3/2N2Q1p/PPPBBPPP/R3K2R b KQkq - 0 1", "r4rk1/1pp1qppp/p1np1n2/2b1p1B1/2B1P1b1/P1NP1N2/1PP1QPPP/R4RK1 w - - 0 10", "rnbq1k1r/pp1Pbppp/2p5/8/2B5/8/PPP1NnPP/RNBQK2R w KQ - 1 8", "r2q1rk1/pP1p2pp/Q4n2/bbp1p3/Np6/1B3NBn/pPPP1PPP/R3K2R b KQ - 0 1", "n1n5/PPPk4/8/8/8/8/4Kppp/5N1N w - - 0 1"];
+    for f in tactical {
+        let p = Pos::from_fen(f).unwrap();
+        for q in [p.flip(), p] {
+            c09_message_at_start(&rep, &stats, &position_line(&q, &[]), &q, 3);
+        }
+    }
     // real-interval conformance: the original 100 000-node rule, every true poll index
     let t0 = Instant::now();
     let conf = c09_real_interval(&rep, tier);
@@ -622,6 +679,41 @@ pub fn replay_c09(case: &Value) -> i32 {
         println!("go depth 4 after the interrupted search: {:?} {:?}; the same after sending the position again: {:?} {:?}", kept.score, kept.best, resent.score, resent.best);
         if kept.score != resent.score {
             rep.report("deeper_go_after_interruption_differs_from_the_same_engine_given_the_position_again".to_string(), json!({"kind": "interrupt_history", "position": pos_line, "depth": depth, "poll_index": k}));
+        }
+        println!("replay: {} violating case(s) reproduced", rep.violation_count());
+        let mut cov = Coverage::new();
+        cov.states = 1;
+        return finish(&rep, Tier::Quick, cov, started);
+    }
+    if case["kind"] == "interrupt_at_start" {
+        let go = case["go"].as_str().unwrap_or("go infinite").to_string();
+        let acts: Vec<GateAction> = match case["actions_index"].as_u64().unwrap_or(0) {
+            0 => vec![GateAction::Stop],
+            1 => vec![GateAction::IsReady, GateAction::Stop],
+            _ => vec![GateAction::PonderHit, GateAction::Stop],
+        };
+        let legal: Vec<String> = pos_of_position_line(&pos_line).map(|p| p.legal().iter().map(|m| m.uci()).collect()).unwrap_or_default();
+        let (_, fresh1) = dry_run(&pos_line, "go depth 1");
+        let mut s = Session::new(false);
+        s.line(&pos_line);
+        let a2 = acts.clone();
+        let out = run_go(&mut s, &go, Plan { poll: None, clock: Clock::Rate { ns_per_node: 0, jumps: vec![] }, gates: vec![START_GATE] }, &move |kk| if kk == START_GATE { a2.clone() } else { vec![] });
+        let again = if out.problem.is_none() { Some(run_go(&mut s, "go depth 1", Plan::virtual_rate(0), &none)) } else { None };
+        s.quit();
+        println!("{} with {:?} already waiting when the search starts -> bestmoves {} {:?} (problem {:?}); position before {:?}, after {:?}; go depth 1 without position -> {:?}; fresh engine: {:?} {:?}", go, acts, out.n_best, out.best, out.problem, out.obs.before_fen, out.obs.after_fen, again.as_ref().map(|a| (a.best.clone(), a.score.clone())), fresh1.best, fresh1.score);
+        let case2 = json!({"kind": "interrupt_at_start", "position": pos_line, "depth": depth, "go": go, "actions_index": case["actions_index"]});
+        if out.problem.is_some() || out.n_best != 1 {
+            rep.report("interrupted_search_gives_no_single_answer:message_waiting_at_start".to_string(), case2.clone());
+        } else if !matches!(&out.best, Some(b) if legal.contains(b)) {
+            rep.report("interrupted_search_plays_illegal_or_null_move:message_waiting_at_start".to_string(), case2.clone());
+        } else if out.obs.before_fen.is_some() && out.obs.after_fen.is_some() && out.obs.before_fen != out.obs.after_fen {
+            rep.report("position_altered_by_interrupted_search:message_waiting_at_start".to_string(), case2.clone());
+        } else if let Some(again) = again {
+            if !matches!(&again.best, Some(b) if legal.contains(b)) {
+                rep.report("go_after_interruption_plays_illegal_or_null_move:message_waiting_at_start".to_string(), case2.clone());
+            } else if again.score != fresh1.score {
+                rep.report("go_after_interruption_scores_differently_from_fresh_engine:message_waiting_at_start".to_string(), case2.clone());
+            }
         }
         println!("replay: {} violating case(s) reproduced", rep.violation_count());
         let mut cov = Coverage::new();
